@@ -1004,3 +1004,173 @@ def parse_into_locals(ctx, res):
                               f"content leaked: parse into locals and "
                               f"commit after validation")
     res.floor(15)
+
+
+# ---------------------------------------------------------------------------
+# cached-field-stable: a field whose content some function keeps in a local
+# across Python-running calls is never released behind its back
+
+FIELD_OWNER_FUNCS = {"trait_clear", "has_traits_clear", "trait_dealloc",
+                     "has_traits_dealloc"}
+# Fields that documented setter APIs replace on a live object, although a
+# holder keeps their content across callbacks.  The hazard is real in
+# principle (a validator that calls set_validate() on its own trait, a
+# callback that assigns obj.__dict__): reported by sub-agents as suspicions,
+# one of them (obj.__dict__ replaced inside a validator: the value lands in
+# the discarded dictionary) confirmed as a lost write but not a crash.  They
+# are not armed: the repair (a held reference in every holder) is not small.
+REPLACEABLE_FIELDS = {
+    "py_validate": "set_validate / property_fields / clone / __setstate__",
+    "default_value": "set_default_value / clone / __setstate__",
+    "obj_dict": "the __dict__ setters of CHasTraits and CTrait, __setstate__",
+}
+
+
+def _cached_fields(facts, runners):
+    """{field: [(function, local, line)]} - object fields loaded into a local
+    that is used again after a later call that can run Python code"""
+    from ..cexpr import strip, var
+    out = {}
+    for fname in facts.defined_functions():
+        fn = facts.func(fname)
+        loads = []      # (line, local, field)
+        calls = []      # lines of python-running calls
+        uses = {}       # local -> [lines]
+        for x in fn.walk():
+            name = rhs = None
+            if x.kind == "VarDecl" and x.ch:
+                name, rhs = x.name, x.ch[-1]
+            elif x.kind == "BinaryOperator" and x.op == "=" and var(x.ch[0]):
+                name, rhs = var(x.ch[0]), x.ch[1]
+            if name and rhs is not None:
+                r = strip(rhs)
+                if r is not None and r.kind == "MemberExpr" and r.arrow \
+                        and "*" in (r.type or "") and "(" not in (r.type or ""):
+                    loads.append((x.line or 0, name, r.name))
+            if x.kind == "CallExpr":
+                c = callee(x)
+                if c in INCREF or c in DECREF:
+                    continue
+                if (c in API and API[c]["python"]) or c.startswith("->") \
+                        or c in runners:
+                    calls.append(x.line or 0)
+            if x.kind == "DeclRefExpr" and x.refkind in ("VarDecl",
+                                                         "ParmVarDecl"):
+                uses.setdefault(x.ref, []).append(x.line or 0)
+        for la, local, field in loads:
+            later_calls = [lc for lc in calls if lc > la]
+            if not later_calls:
+                continue
+            # re-loads of the same local end the cached interval
+            reloads = [l2 for l2, n2, f2 in loads if n2 == local and l2 > la]
+            end = min(reloads) if reloads else 10 ** 9
+            if any(lu > min(later_calls) and lu < end
+                   for lu in uses.get(local, [])):
+                out.setdefault(field, []).append((fname, local, la))
+    return out
+
+
+@rule("C18.cached-field-stable", ["C18"],
+      "an object field whose content some C function keeps in a local while "
+      "it runs Python code (the notifier lists, the instance dictionary) is "
+      "released or replaced only by the owner's tp_clear / dealloc: any "
+      "other function that drops it can be reached from those callbacks and "
+      "frees the object under the function that still uses it")
+def cached_field_stable(ctx, res):
+    from ..cexpr import cnorm, strip
+    facts = get_cfacts(ctx)
+    runners = python_runners(facts)
+    cached = _cached_fields(facts, runners)
+    if len(cached) < 2:
+        raise AnalysisError(f"cached fields: {sorted(cached)}")
+    for field, holders in sorted(cached.items()):
+        res.instance(f"field:{field}", CREL,
+                     cached_by=sorted({h[0] for h in holders}),
+                     armed=field not in REPLACEABLE_FIELDS)
+    if not (set(cached) - set(REPLACEABLE_FIELDS)):
+        raise AnalysisError("no armed cached field left")
+    n = 0
+    for fname in facts.defined_functions():
+        if fname in FIELD_OWNER_FUNCS:
+            continue
+        fn = facts.func(fname)
+        for c in fn.walk():
+            if c.kind != "CallExpr":
+                continue
+            cal = callee(c)
+            target = None
+            if cal in ("Py_CLEAR", "Py_DECREF", "Py_XDECREF", "Py_SETREF",
+                       "Py_XSETREF") and len(c.ch) >= 2:
+                a = strip(c.ch[1])
+                if a is not None and a.kind == "MemberExpr" and a.arrow:
+                    target = a
+            elif facts.has_func(cal) and len(c.ch) == 3:
+                a = strip(c.ch[1])      # set_value(&X->F, v)
+                if a is not None and a.kind == "UnaryOperator" and a.op == "&":
+                    inner = strip(a.ch[0])
+                    if inner is not None and inner.kind == "MemberExpr" \
+                            and inner.arrow:
+                        target = inner
+            if target is None or target.name not in cached \
+                    or target.name in REPLACEABLE_FIELDS:
+                continue
+            n += 1
+            holders = sorted({h[0] for h in cached[target.name]})
+            res.violation(f"{fname}:releases-cached-field:{target.name}",
+                          facts.loc(c),
+                          f"{fname} releases `{cnorm(target)}` "
+                          f"(`{cal}`), but {', '.join(holders[:4])} keep the "
+                          f"content of ->{target.name} in a local across "
+                          f"calls that run Python code: reached from such a "
+                          f"callback, this frees (or swaps) the object they "
+                          f"go on using")
+    # Py_CLEAR is a macro on this build: its expansion stores NULL into the
+    # field (and releases the previous content through a temporary)
+    from ..cexpr import is_null
+    for fname in facts.defined_functions():
+        if fname in FIELD_OWNER_FUNCS:
+            continue
+        for x in facts.func(fname).walk():
+            if x.kind == "VarDecl" and x.ch:
+                # `PyObject **_tmp_op_ptr = &X->F;` (the Py_CLEAR / Py_SETREF
+                # expansion of this CPython): the field is about to be
+                # replaced through the pointer
+                i0 = strip(x.ch[-1])
+                if i0 is not None and i0.kind == "UnaryOperator" \
+                        and i0.op == "&":
+                    tg = strip(i0.ch[0])
+                    if tg is not None and tg.kind == "MemberExpr" and tg.arrow \
+                            and tg.name in cached \
+                            and tg.name not in REPLACEABLE_FIELDS:
+                        n += 1
+                        holders = sorted({h[0] for h in cached[tg.name]})
+                        res.violation(
+                            f"{fname}:releases-cached-field:{tg.name}",
+                            facts.loc(x),
+                            f"{fname} clears/replaces `{cnorm(tg)}` "
+                            f"(Py_CLEAR-style), but {', '.join(holders[:4])} "
+                            f"keep the content of ->{tg.name} in a local "
+                            f"across calls that run Python code: reached "
+                            f"from such a callback (a default-value method, "
+                            f"a validator), this frees the list they go on "
+                            f"using")
+            if x.kind == "BinaryOperator" and x.op == "=":
+                lhs = strip(x.ch[0])
+                if lhs is not None and lhs.kind == "MemberExpr" and lhs.arrow \
+                        and lhs.name in cached \
+                        and lhs.name not in REPLACEABLE_FIELDS \
+                        and is_null(x.ch[1]):
+                    n += 1
+                    holders = sorted({h[0] for h in cached[lhs.name]})
+                    res.violation(
+                        f"{fname}:releases-cached-field:{lhs.name}",
+                        facts.loc(x),
+                        f"{fname} clears `{cnorm(lhs)}`, but "
+                        f"{', '.join(holders[:4])} keep the content of "
+                        f"->{lhs.name} in a local across calls that run "
+                        f"Python code: reached from such a callback (a "
+                        f"default-value method, a validator), this frees "
+                        f"the list they go on using")
+    if n == 0:
+        res.oblige(True, "no-release-outside-owner", "", "")
+    res.floor(2)
